@@ -72,6 +72,9 @@ def run(ctx):
     ctx.shared(_c08.taint, ctx, _g, _c08.keyword_fields(ctx, _g))   # keyword-carrying fields (cardinality ...) are read case-normalised
     ctx.shared(_c09.nav, ctx)                  # navigation behind select ... related by
     ctx.shared(_c02.linkops, ctx)              # relate / unrelate
+    ctx.shared(_c02.delete_rule, ctx)          # delete object instance
+    from . import linkedset as _ls
+    ctx.shared(_ls.check, ctx, 'C04-SETS')     # instance sets behind select many / for each / cardinality
     ctx.assume('xtuml.relate/unrelate/delete/select/navigate behave as C02/C09 decide')
     ctx.assume('whole-program semantic equivalence with a relational reference evaluator is a runtime quantity and is not decided')
     return ('Exhaustiveness of evaluators against the Node classes the grammar can construct; operator tables compared '
